@@ -209,6 +209,7 @@ def run(tier: str, seed: int, rep: Report, model: Model) -> dict:
         dres = worker.call_many("impl_class_def", [d for d, _ in defs], timeout=30.0)
         nested = worker.call("impl_nested", {}, timeout=60.0)
         inpl = worker.call("impl_inplace_models", {}, timeout=120.0)
+        shared_ann = worker.call("impl_shared_annotation_object", {}, timeout=120.0)
     finally:
         worker.close()
     for h, ans, res in zip(hs, answers, results):
@@ -316,6 +317,9 @@ def run(tier: str, seed: int, rep: Report, model: Model) -> dict:
     rep.case("same_object_changed_in_place", {"n": inpl.get("n")})
     for pr in inpl.get("problems", [{"what": "the in-place run did not finish", "detail": inpl}] if "problems" not in inpl else []):
         rep.violation(pr)
+    rep.case("shared_annotation_object", {"n": shared_ann.get("n")})
+    for pr in shared_ann.get("problems", [{"what": "the shared-annotation run did not finish", "detail": shared_ann}] if "problems" not in shared_ann else []):
+        rep.violation(pr)
     rep.case("nested", nested)
     for p in nested.get("problems", [{"what": "nested-model run did not finish", "detail": nested}] if "problems" not in nested else []):
         rep.violation(p)
@@ -329,6 +333,56 @@ def impl_inplace_models(_: dict) -> dict:
     r = c09.impl_inplace({})
     r["problems"] = [p for p in r.get("problems", []) if p.get("form") in ("pydantic", "model_validate")]
     return r
+
+
+def impl_shared_annotation_object(_: dict) -> dict:
+    """ONE annotation object used as metadata of several pydantic fields (same field name in two models, a subclass re-declaring
+    the field, different base types): every class definition is cross-checked on its own."""
+    from typing import Annotated
+
+    import numpy as np
+    import numpy.typing as npt
+    import pydantic
+
+    import dltype
+
+    problems, n = [], 0
+    cfg = pydantic.ConfigDict(arbitrary_types_allowed=True)
+
+    def define(name, base, ann, parent=pydantic.BaseModel):
+        try:
+            return pydantic.create_model(name, __base__=parent, image=(Annotated[base, ann], ...)), None
+        except dltype.DLTypeDtypeError:
+            return None, "DLTypeDtypeError"
+        except BaseException as e:  # noqa: BLE001
+            return None, type(e).__name__
+
+    class Base(pydantic.BaseModel):
+        model_config = cfg
+
+    for first in (np.ndarray, npt.NDArray[np.float32]):
+        IMAGE = dltype.FloatTensor("h w")
+        A_, e1 = define("A", first, IMAGE, Base)
+        n += 1
+        if e1:
+            problems.append({"what": "a consistent class definition was refused", "base": str(first), "error": e1})
+            continue
+        for label, parent in (("second model", Base), ("subclass re-declaring the field", A_)):
+            n += 2
+            _, e2 = define("B", npt.NDArray[np.uint8], IMAGE, parent)
+            if e2 != "DLTypeDtypeError":
+                problems.append({"what": "a contradicting scalar type was not refused at class definition when the annotation object had been used before",
+                                 "first_use": str(first), "second_use": label, "outcome": e2 or "defined"})
+            G_, e3 = define("C", npt.NDArray[np.float64], IMAGE, parent)
+            if e3:
+                problems.append({"what": "a consistent scalar type was refused when the annotation object had been used before", "second_use": label, "error": e3})
+            elif G_ is not None:
+                try:
+                    G_(image=np.zeros((2, 3), dtype=np.float64))
+                    G_(image=np.zeros((4, 1), dtype=np.float64))
+                except BaseException as e:  # noqa: BLE001
+                    problems.append({"what": "a model sharing its annotation object with another refused a conforming value", "error": type(e).__name__})
+    return {"n": n, "problems": problems}
 
 
 def impl_nested(_: dict) -> dict:
